@@ -728,7 +728,7 @@ func MergeRows(_ interface{},
 			if !hideDeletedValue(t1, v1, resetValuesBefore) {
 				res.ColumnValues[k] = adj(t1, v1, outTime)
 			}
-		case UpdateTime(t1, v1).Before(UpdateTime(t2, v2)):
+		case !UpdateTime(t1, v1).After(UpdateTime(t2, v2)):
 			if !hideDeletedValue(t2, v2, resetValuesBefore) {
 				res.ColumnValues[k] = adj(t2, v2, outTime)
 			}
